@@ -18,12 +18,13 @@ func init() { register("c08", c08) }
 type failingModel struct {
 	dna.DistModel
 	k     int64
+	from  bool // every evaluation from the k-th on fails
 	calls int64
 }
 
 func (f *failingModel) Distance(s1, s2 []uint8, w []float64) (float64, error) {
 	n := atomic.AddInt64(&f.calls, 1)
-	if n == f.k {
+	if n == f.k || (f.from && n > f.k) {
 		return 0, fmt.Errorf("evaluation %d fails", n)
 	}
 	return f.DistModel.Distance(s1, s2, w)
@@ -78,6 +79,7 @@ func c08(args []string) error {
 			continue
 		}
 		cs.matrix = A
+		cs.class = class
 		L := len(cs.seqs[0])
 		clone := func() *c07case {
 			c := *cs
@@ -92,7 +94,11 @@ func c08(args []string) error {
 			cb.class = cl
 			emit(what, kind, factor, perm, A, cb, cl != OutDiverge && cl != OutPanic, cl != OutOk)
 		}
-		switch r.Intn(8) {
+		kindSel := r.Intn(10)
+		if kindSel == 9 {
+			kindSel = 8
+		}
+		switch kindSel {
 		case 0: // column permutation (the internal-gap mode depends on column order by definition)
 			if cs.gapmode == 1 && cs.model <= 1 {
 				continue
@@ -182,16 +188,41 @@ func c08(args []string) error {
 		case 6: // thread count: bit-identical
 			cb := clone()
 			finish("thread count", 0, 1, nil, cb, []int{2, 3, 8, 16, 32}[r.Intn(5)])
+		case 8: // sequence ranges: the requested pairs carry the entries of the full matrix, the rest is 0
+			n := len(cs.seqs)
+			rg := [4]int{}
+			rg[0] = r.Intn(n)
+			rg[1] = rg[0] + r.Intn(n-rg[0]+1) // may exceed the last row: clipped
+			rg[2] = r.Intn(n)
+			rg[3] = rg[2] + r.Intn(n-rg[2]+1)
+			if n >= 3 && r.Intn(2) == 0 { // range 1 strictly below range 2 in the matrix: every pair visited with i > j
+				k := 1 + r.Intn(n-1)
+				rg = [4]int{k, n - 1, 0, k - 1}
+			}
+			cb := clone()
+			cb.ranges = &rg
+			B, cl := runDist(cb, []int{1, 2, 4}[r.Intn(3)])
+			if B == nil {
+				B = [][]float64{}
+			}
+			what := "sequence ranges"
+			term := fmt.Sprintf("mk %s %s %s %s %s %s %s %s (%s)", coqStr(what), coqZ(5), coqZ(1), coqZList(rg[:]), matTerm(A), matTerm(B),
+				coqBool(cl != OutDiverge && cl != OutPanic), coqBool(cl != OutOk), "C07."+cs.coq())
+			w.add(term, map[string]interface{}{"op": what, "kind": 5, "perm": rg[:], "model": c07Models[cs.model], "gamma": cs.gamma,
+				"rmgaps": cs.rmgaps, "gapmode": cs.gapmode, "weights": cs.useWeights, "names": cs.names, "seqs": cs.seqs,
+				"a": fmt.Sprint(A), "b": fmt.Sprint(B)})
+			stats[what]++
 		case 7: // failing model at the k-th pair
 			npairs := len(cs.seqs) * (len(cs.seqs) - 1) / 2
 			k := 1 + r.Intn(npairs)
-			cpus := []int{1, 2, 8}[r.Intn(3)]
+			cpus := []int{1, 2, 3, 4, 8, 16}[r.Intn(6)]
+			from := r.Intn(2) == 0
 			a, e := mkAlign(align.NUCLEOTIDS, cs.names, cs.seqs)
 			if e != nil {
 				continue
 			}
 			m, _ := dna.Model(c07Models[cs.model], cs.rmgaps)
-			fm := &failingModel{DistModel: m, k: int64(k)}
+			fm := &failingModel{DistModel: m, k: int64(k), from: from}
 			done := make(chan error, 1)
 			go func() {
 				_, e := dna.DistMatrix(a, nil, fm, -1, -1, -1, -1, cs.gamma, cs.alpha.f(), cpus)
@@ -204,7 +235,7 @@ func c08(args []string) error {
 			case <-time.After(3 * time.Second):
 			}
 			cb := clone()
-			emit(fmt.Sprintf("failing model (evaluation %d of %d, %d workers)", k, npairs, cpus), 4, 1, nil, A, cb, returned, errored)
+			emit(fmt.Sprintf("failing model (evaluation %d of %d, from-then-on=%v, %d workers)", k, npairs, from, cpus), 4, 1, nil, A, cb, returned, errored)
 		}
 	}
 	if g.only >= 0 {
